@@ -39,7 +39,9 @@ def check_1d(mname, flux, rname, n, L, x0, nlet, strength, res=None):
     neq = model.neq
     R, S, ok = {}, {}, {}
     pos = [0, 2] if kind == "euler1d" else ([0] if kind == "shallowwater" else [])
-    for idx in itertools.product(range(nlet), repeat=n):
+    # small meshes: every assignment; larger meshes: every cyclic translate of the base patterns (closed under shifts)
+    assignments = itertools.product(range(nlet), repeat=n) if n <= 6 else space.pattern_assignments(n, nlet)
+    for idx in assignments:
         f = space.field_from_letters(model, mesh, al, idx)
         with np.errstate(all="ignore"):
             r = [np.asarray(x, float).copy() for x in disc.rhs(f)]
@@ -89,8 +91,9 @@ def shard_1d(arg):
     res = core.Res()
     strength = "mild" if space.recon_kappa(rname) is not None else "strong"
     ns = (1, 2, 3, 4, 5, 6) if tier == "thorough" else (1, 2, 3, 4, 5)
+    ns = ns + ((7, 8, 13, 16, 33) if (tier == "thorough" or rname in ("extrapol1", "extrapol3", "muscl:vanleer", "muscl:superbee")) else ())
     for n in ns:
-        nlet = {1: 5, 2: 5, 3: 5, 4: 4, 5: 3, 6: 2}[n]
+        nlet = {1: 5, 2: 5, 3: 5, 4: 4, 5: 3, 6: 2}.get(n, 3)
         for L, x0 in ((float(n), 0.0), (1.0, -4.0)):
             for s, w in check_1d(mname, flux, rname, n, L, x0, nlet, strength, res):
                 res.violation(s, w, {"kind": "1d", "model": mname, "flux": flux, "recon": rname, "n": n, "L": L, "x0": x0, "nlet": nlet, "strength": strength})
